@@ -138,17 +138,99 @@ def gen_mask(rng, seg):
     return m, 'all-false'
 
 
+PED = float(2 ** 20)      # float32 pedestal: 2^20 + k/4 is a float32, a float32 sum of >= 4 of them is not exact
+INT_RANGE = {'int': (0, 30), 'int16': (-3000, 30000), 'uint16': (0, 60000)}
+
+
+def _store_values(rng, seg, dtype, kind):
+    """Values (as float64) that are exactly representable in the storage dtype."""
+    ny, nx = seg.shape
+    if dtype in INT_RANGE:
+        lo, hi = INT_RANGE[dtype]
+        return np.array([[float(rng.randint(lo, hi)) for _ in range(nx)] for _ in range(ny)])
+    a = gen_values(rng, seg, kind)
+    if dtype == 'float32':
+        a = a + PED
+    return a
+
+
+def gen_ops(rng, labs):
+    """Reorderings applied one after the other to the full catalog; every later read goes
+    through the reordered catalog.  index = integer-array indexing (arbitrary permutations,
+    3-cycles, repeats), sort_flux = argsort of segment_flux, get_labels / get_label = label lookup."""
+    ops = []
+    cur = list(labs)
+    r = rng.random()
+    if r < 0.45:
+        return ops
+    nsteps = rng.choice([1, 2, 2, 3])
+    for step in range(nsteps):
+        kind = rng.choice(['index', 'index', 'sort_flux', 'get_labels', 'get_labels', 'get_label'])
+        if step == 0 and nsteps > 1:
+            kind = rng.choice(['index', 'index', 'sort_flux'])      # first make the row order non-trivial
+        if kind == 'index':
+            n = len(cur)
+            how = rng.choice(['perm', 'perm', 'cycle', 'subset', 'repeat'])
+            if how == 'perm':
+                pos = rng.sample(range(n), n)
+            elif how == 'cycle':      # rotation: not self-inverse for n >= 3
+                k = rng.randrange(1, n) if n > 1 else 0
+                pos = [(i + k) % n for i in range(n)]
+            elif how == 'subset':
+                pos = rng.sample(range(n), rng.randint(1, n))
+            else:
+                pos = [rng.randrange(n) for _ in range(rng.randint(1, n + 1))]
+            ops.append(['index', pos])
+            cur = [cur[i] for i in pos]
+        elif kind == 'sort_flux':
+            ops.append(['sort_flux', rng.choice([1, -1])])
+            cur = None      # data dependent: resolved when the implementation runs
+            break
+        elif kind == 'get_labels':
+            pool = sorted(set(cur))
+            if rng.random() < 0.7:
+                want = rng.sample(pool, rng.randint(1, len(pool)))
+            else:
+                want = [rng.choice(pool) for _ in range(rng.randint(1, len(pool) + 1))]
+            if len(set(cur)) != len(cur):      # a label lookup in a catalog with repeated rows is ambiguous
+                break
+            ops.append(['get_labels', want])
+            cur = list(want)
+        else:
+            if len(set(cur)) != len(cur):
+                break
+            ops.append(['get_label', rng.choice(cur)])
+            break
+    return ops
+
+
 def gen_case(rng, small=False):
     ny, nx = rng.randint(1, 5 if small else 9), rng.randint(1, 5 if small else 9)
     seg, shapes = gen_seg(rng, ny, nx)
-    vk = rng.choice(['rand', 'rand', 'ties', 'signed', 'int', 'flat'])
-    data = sprinkle_nonfinite(rng, gen_values(rng, seg, vk), seg, 0.4)
-    if rng.random() < 0.08:      # a source whose data are all non-finite
-        labs = [int(v) for v in np.unique(seg) if v]
-        data[seg == rng.choice(labs)] = np.nan
+    r = rng.random()
+    dtype = None
+    if r < 0.14:
+        dtype = 'float32'
+    elif r < 0.22:
+        dtype = 'float16'
+    elif r < 0.34:
+        dtype = rng.choice(['int', 'int16', 'uint16'])
+    if dtype in ('float32', 'float16') and not small and rng.random() < 0.6:
+        # a large source: narrow accumulation cannot be exact on it
+        seg[:max(1, ny - 2), :max(1, nx - 1)][seg[:max(1, ny - 2), :max(1, nx - 1)] == 0] = int(seg.max()) + 1
+    isint = dtype in INT_RANGE
+    vk = 'int' if isint else rng.choice(['rand', 'rand', 'ties', 'signed', 'int', 'flat'])
+    data = _store_values(rng, seg, dtype, vk)
+    if not isint:
+        data = sprinkle_nonfinite(rng, data, seg, 0.4)
+        if rng.random() < 0.08:      # a source whose data are all non-finite
+            labs = [int(v) for v in np.unique(seg) if v]
+            data[seg == rng.choice(labs)] = np.nan
     conv = None
     if rng.random() < 0.5:
-        conv = sprinkle_nonfinite(rng, gen_values(rng, seg, rng.choice(['rand', 'signed', 'ties'])), seg, 0.3)
+        conv = _store_values(rng, seg, dtype, rng.choice(['rand', 'signed', 'ties']))
+        if not isint:
+            conv = sprinkle_nonfinite(rng, conv, seg, 0.3)
     err = None
     if rng.random() < 0.6:
         err = np.abs(gen_values(rng, seg, rng.choice(['rand', 'ties'])))
@@ -156,30 +238,25 @@ def gen_case(rng, small=False):
             err[rng.randrange(ny), rng.randrange(nx)] = np.nan
     bkg = None
     if rng.random() < 0.6:
-        bkg = gen_values(rng, seg, rng.choice(['rand', 'signed', 'flat']))
-        if rng.random() < 0.1:
+        bkg = _store_values(rng, seg, dtype, rng.choice(['rand', 'signed', 'flat']))
+        if not isint and rng.random() < 0.1:
             bkg[rng.randrange(ny), rng.randrange(nx)] = np.nan
     mask, mk = gen_mask(rng, seg)
     det = None
     if rng.random() < 0.3:
-        ddata = sprinkle_nonfinite(rng, gen_values(rng, seg, rng.choice(['rand', 'signed'])), seg, 0.4)
+        ddata = _store_values(rng, seg, dtype, rng.choice(['rand', 'signed']))
+        if not isint:
+            ddata = sprinkle_nonfinite(rng, ddata, seg, 0.4)
         dconv = None
         if rng.random() < 0.5:
-            dconv = sprinkle_nonfinite(rng, gen_values(rng, seg, 'rand'), seg, 0.3)
+            dconv = _store_values(rng, seg, dtype, 'rand')
+            if not isint:
+                dconv = sprinkle_nonfinite(rng, dconv, seg, 0.3)
         dmask, dmk = gen_mask(rng, seg)
         det = dict(data=ddata, conv=dconv, mask=dmask)
     labs = sorted(int(v) for v in np.unique(seg) if v)
-    order = None
-    how = 'all'
-    r = rng.random()
-    if r < 0.25:
-        order = rng.sample(labs, rng.randint(1, len(labs)))
-        how = 'get_labels'
-    elif r < 0.35:
-        order = rng.sample(labs, rng.randint(1, len(labs)))
-        how = 'index-after-eval'
-    return dict(seg=seg, data=data, conv=conv, err=err, bkg=bkg, mask=mask, det=det, order=order, how=how,
-                intdata=(vk == 'int' and np.all(np.isfinite(data)) and rng.random() < 0.5),
+    ops = gen_ops(rng, labs)
+    return dict(seg=seg, data=data, conv=conv, err=err, bkg=bkg, mask=mask, det=det, ops=ops, dtype=dtype,
                 meta=dict(shapes=shapes, values=vk, mask=mk))
 
 
@@ -190,34 +267,81 @@ def _cp(a):
     return None if a is None else a.copy()
 
 
+def _stored(a, dtype, is_err=False):
+    """The array as the caller stores it (narrow float / integer dtype); exactly the same numbers."""
+    if a is None:
+        return None
+    if dtype is None:
+        return a.copy()
+    if is_err:
+        if dtype not in ('float32', 'float16'):
+            return a.copy()
+    dt = {'int': int}.get(dtype, dtype)
+    with np.errstate(all='ignore'):
+        b = a.astype(dt)
+    if not np.array_equal(b.astype(float), a, equal_nan=True):      # not representable: keep float64
+        return a.copy()
+    return b
+
+
+class ReorderError(Exception):
+    pass
+
+
+class ImplTimeout(Exception):
+    pass
+
+
 def build_catalog(case, seg=None):
     from photutils.segmentation import SegmentationImage, SourceCatalog
     seg = case['seg'] if seg is None else seg
     segm = SegmentationImage(seg.copy())
+    dt = case.get('dtype')
     detcat = None
     if case['det'] is not None:
         d = case['det']
-        detcat = SourceCatalog(d['data'].copy(), segm, convolved_data=_cp(d['conv']), mask=_cp(d['mask']))
-    data = case['data'].astype(int) if case.get('intdata') else case['data'].copy()
-    return SourceCatalog(data, segm, convolved_data=_cp(case['conv']), error=_cp(case['err']),
-                         mask=_cp(case['mask']), background=_cp(case['bkg']), detection_cat=detcat)
+        detcat = SourceCatalog(_stored(d['data'], dt), segm, convolved_data=_stored(d['conv'], dt),
+                               mask=_cp(d['mask']))
+    return SourceCatalog(_stored(case['data'], dt), segm, convolved_data=_stored(case['conv'], dt),
+                         error=_stored(case['err'], dt, is_err=True), mask=_cp(case['mask']),
+                         background=_stored(case['bkg'], dt), detection_cat=detcat)
 
 
 def derive(case, cat):
-    """The catalog the rows are read from: the full one, a get_labels() reordering, or
-    an index taken after some properties were already evaluated."""
-    if case['order'] is None:
-        return cat
-    if case['how'] == 'get_labels':
-        return cat.get_labels(case['order'])
-    _ = (cat.segment_flux, cat.centroid, cat.minval_index, cat.area)
-    labs = list(cat.labels)
-    return cat[[labs.index(v) for v in case['order']]]
+    """Apply the reordering ops one after the other; returns (catalog the rows are read from,
+    the labels its rows must carry, in order)."""
+    labs = [int(v) for v in np.atleast_1d(cat.labels)]
+    if case.get('ops'):
+        _ = (cat.segment_flux, cat.centroid, cat.minval_index, cat.area)      # caches filled before slicing
+    for op, arg in case.get('ops') or []:
+      try:
+        if op == 'index':
+            cat = cat[list(arg)]
+            labs = [labs[i] for i in arg]
+        elif op == 'sort_flux':
+            with warnings.catch_warnings():
+                warnings.simplefilter('ignore')
+                flux = np.asarray(cat.segment_flux, float)
+            pos = [int(i) for i in np.argsort(arg * np.where(np.isfinite(flux), flux, np.inf), kind='stable')]
+            cat = cat[pos]
+            labs = [labs[i] for i in pos]
+        elif op == 'get_labels':
+            cat = cat.get_labels(list(arg))
+            labs = list(arg)
+        else:
+            cat = cat.get_label(arg)
+            labs = [arg]
+      except ImplTimeout:
+        raise
+      except Exception as e:      # a valid reordering request (labels / positions of this catalog) must not raise
+        raise ReorderError(f'{op}({arg}) on a catalog with labels {labs} raised {type(e).__name__}: {e}')
+    return cat, labs
 
 
 def rows_of(cat):
     """Per-source observables as plain Python floats/ints (one dict per row)."""
     n = cat.nlabels
+    scalar = cat.isscalar
     g = {}
     with warnings.catch_warnings():
         warnings.simplefilter('ignore')
@@ -233,6 +357,11 @@ def rows_of(cat):
         for nm in ('segment_flux', 'segment_fluxerr', 'min_value', 'max_value', 'cutout_minval_index',
                    'cutout_maxval_index', 'minval_index', 'maxval_index', 'background_sum', 'background_mean'):
             g[nm] = np.asarray(getattr(cat, nm))
+    if scalar:      # a single-source catalog returns scalars / unbatched arrays
+        tail = {'moments': (4, 4), 'covariance': (2, 2), 'cutout_centroid': (2,), 'centroid': (2,),
+                'cutout_minval_index': (2,), 'cutout_maxval_index': (2,), 'minval_index': (2,), 'maxval_index': (2,)}
+        g = {k: np.asarray(v).reshape((1,) + tail.get(k, ())) for k, v in g.items()}
+        n = 1
     rows = []
     for i in range(n):
         r = {'label': int(g['label'][i]),
@@ -251,10 +380,6 @@ def rows_of(cat):
     return rows
 
 
-class ImplTimeout(Exception):
-    pass
-
-
 def _alarm(signum, frame):
     raise ImplTimeout()
 
@@ -267,8 +392,10 @@ def run_impl(case, limit=30):
     signal.alarm(limit)
     try:
         cat = build_catalog(case)
-        sub = derive(case, cat)
-        return cat, sub, rows_of(sub)
+        sub, want = derive(case, cat)
+        rows = rows_of(sub)
+        case['_want_labels'] = want
+        return cat, sub, rows
     finally:
         signal.alarm(0)
         signal.signal(signal.SIGALRM, old)
@@ -354,7 +481,7 @@ def to_coq(case, rows):
         d = case['det']
         det = Some(_arrays(d['data'], d['conv'], None, None, d['mask']))
     labels = [r['label'] for r in rows]
-    full = case['order'] is None      # rows of the complete catalog: label order is checked too
+    full = not case.get('ops')      # rows of the complete catalog: label order is checked too
     return coq((S, ny, nx, [[int(v) for v in row] for row in case['seg']], own, det, full, labels,
                 [crow(r) for r in rows]))
 
@@ -502,6 +629,9 @@ def classify(case, r, field, sp):
         return 'SourceCatalog.segment_flux:detection_cat-with-different-mask'
     if field == 'covariance' and sp['covariance'] is not None and not all(math.isfinite(v) for v in r['covariance']):
         return 'SourceCatalog.covariance:nan-for-collinear-pixels'
+    if (field in ('background_sum', 'background_mean') and case.get('dtype') in ('float32', 'float16')
+            and sp[field] is not None and math.isfinite(r[field])):
+        return 'SourceCatalog.background_sum:narrow-float-background-accumulated-in-its-dtype'
     return f'SourceCatalog.{field}'
 
 
@@ -547,18 +677,23 @@ def perturb_outside(rng, case, lab):
             if rng.random() < 0.5:
                 b[y, x] = not b[y, x]
         return b
-    out['data'] = pert(case['data'], allow_nan=not case.get('intdata'))
-    if case.get('intdata'):
-        out['data'] = np.round(out['data'])
-    out['conv'] = pert(case['conv'])
+    isint = case.get('dtype') in INT_RANGE
+
+    def pertd(a):      # arrays stored in the case's dtype: stay representable in it
+        b = pert(a, allow_nan=not isint)
+        if b is not None and isint:
+            lo, hi = INT_RANGE[case['dtype']]
+            b = np.clip(np.round(b), lo, hi)
+        return b
+    out['data'] = pertd(case['data'])
+    out['conv'] = pertd(case['conv'])
     out['err'] = pert(case['err'], nonneg=True)
-    out['bkg'] = pert(case['bkg'])
+    out['bkg'] = pertd(case['bkg'])
     out['mask'] = pmask(case['mask'])
     if case['det'] is not None:
         d = case['det']
-        out['det'] = dict(data=pert(d['data']), conv=pert(d['conv']), mask=pmask(d['mask']))
-    out['order'] = None
-    out['how'] = 'all'
+        out['det'] = dict(data=pertd(d['data']), conv=pertd(d['conv']), mask=pmask(d['mask']))
+    out['ops'] = []
     return out
 
 
@@ -571,8 +706,7 @@ def relabel(rng, case):
         seg2[case['seg'] == a] = b
     out = dict(case)
     out['seg'] = seg2
-    out['order'] = None
-    out['how'] = 'all'
+    out['ops'] = []
     return out, mp
 
 
@@ -629,7 +763,7 @@ def describe(case):
     d = {'seg': case['seg'].tolist(), 'data': arr(case['data']), 'conv': arr(case['conv']),
          'err': arr(case['err']), 'bkg': arr(case['bkg']),
          'mask': None if case['mask'] is None else case['mask'].astype(int).tolist(),
-         'order': case['order'], 'how': case['how'], 'intdata': bool(case.get('intdata'))}
+         'ops': case.get('ops') or [], 'dtype': case.get('dtype')}
     d['det'] = None if case['det'] is None else {
         'data': arr(case['det']['data']), 'conv': arr(case['det']['conv']),
         'mask': None if case['det']['mask'] is None else case['det']['mask'].astype(int).tolist()}
@@ -644,7 +778,17 @@ def undescribe(d):
                           for v in row] for row in a], float)
     c = {'seg': np.array(d['seg'], int), 'data': arr(d['data']), 'conv': arr(d['conv']), 'err': arr(d['err']),
          'bkg': arr(d['bkg']), 'mask': None if d['mask'] is None else np.array(d['mask'], bool),
-         'order': d.get('order'), 'how': d.get('how', 'all'), 'intdata': d.get('intdata', False)}
+         'ops': d.get('ops'), 'dtype': d.get('dtype')}
+    if c['ops'] is None:      # replays written before the reorder ops existed
+        c['ops'] = []
+        if d.get('order') is not None:
+            if d.get('how') == 'get_labels':
+                c['ops'] = [['get_labels', d['order']]]
+            else:
+                labs = sorted(int(v) for v in np.unique(c['seg']) if v)
+                c['ops'] = [['index', [labs.index(v) for v in d['order']]]]
+        if d.get('intdata'):
+            c['dtype'] = 'int'
     c['det'] = None if d.get('det') is None else {
         'data': arr(d['det']['data']), 'conv': arr(d['det']['conv']),
         'mask': None if d['det']['mask'] is None else np.array(d['det']['mask'], bool)}
@@ -678,8 +822,12 @@ def run(ctx):
         'rect/single/diag/anti/ring(nested)/L/edge/scatter/line, overlapping draws give touching and nested '
         'segments; values k/4 (rand/ties/signed/int/flat) with NaN/+-inf; optional convolved_data, error, '
         'background (with NaN), masks (random/cut/source-masked/all-false), detection catalogs with their own '
-        'data/conv/mask, rows read from the full catalog, get_labels(reordered subset) or an index taken after '
-        'properties were evaluated; non-trivial = at least one unmasked finite pixel in some row; distinct = '
+        'data/conv/mask; 1/3 of the scenes store data/convolved/background as float32 (pedestal 2^20 + k/4, '
+        'large sources: a float32 accumulation is not exact), float16, int, int16 or uint16 (same numbers); rows '
+        'read from the full catalog or through up to 3 chained reorderings (integer-array index: arbitrary '
+        'permutations, rotations, subsets, repeats; argsort of segment_flux; get_labels with shuffled / repeated '
+        'arguments; get_label -> scalar catalog) taken after properties were evaluated, the returned label column '
+        'must be the requested one; non-trivial = at least one unmasked finite pixel in some row; distinct = '
         'distinct full inputs')
     ctx.assumptions += [
         'localbkg_width = 0 only (the local background for width > 0 is sigma-clipping numerics, not modelled)',
@@ -714,6 +862,10 @@ def run(ctx):
                           'within 30 s on a 9x9 image (the covariance is defined for every source)',
                           {'case': describe(c), 'cmd': 'bin/check C07 --replay <this file>'})
             break      # every further thin source would cost another 30 s; the check fails anyway
+        except ReorderError as e:
+            ctx.violation('SourceCatalog.row-order:raises', 'reading rows of a reordered catalog raised: ' + str(e)[:200],
+                          {'case': describe(c), 'error': str(e), 'cmd': 'bin/check C07 --replay <this file>'})
+            continue
         cases.append(c)
         impl.append(rows)
         n_rows += len(rows)
@@ -727,7 +879,8 @@ def run(ctx):
         ctx.stat('inputs', 'error' if c['err'] is not None else 'no-error')
         ctx.stat('inputs', 'background' if c['bkg'] is not None else 'no-background')
         ctx.stat('inputs', 'detection_cat' if c['det'] is not None else 'no-detection_cat')
-        ctx.stat('rows_from', c['how'])
+        ctx.stat('rows_from', '+'.join(op for op, _ in c['ops']) or 'all')
+        ctx.stat('storage_dtype', c['dtype'] or 'float64')
         ctx.stat('labels', 'non-consecutive' if max(r['label'] for r in rows) > len(np.unique(c['seg'])) else 'consecutive')
         nontrivial = any(math.isfinite(r['segment_flux']) for r in rows)
         for r in rows:
@@ -741,13 +894,20 @@ def run(ctx):
         if i < 2:
             ctx.sample({'case': describe(c), 'impl_rows': [jrow(r) for r in rows]})
         # metamorphic clauses (implementation only)
-        full_rows = rows if c['order'] is None else rows_of(cat)
+        full_rows = rows if not c['ops'] else rows_of(cat)
         by_label = {r['label']: r for r in full_rows}
-        if c['order'] is not None:      # reordering rows changes nothing else
+        if c['ops']:      # reordering rows changes nothing else: every row is the row of ITS label
+            got = [r['label'] for r in rows]
+            if got != c['_want_labels']:
+                ctx.violation('SourceCatalog.row-order:wrong-rows-returned',
+                              f'rows read through {[op for op, _ in c["ops"]]} carry labels {got}, requested '
+                              f'{c["_want_labels"]}', {'case': describe(c), 'got_labels': got,
+                                                       'want_labels': c['_want_labels'],
+                                                       'cmd': 'bin/check C07 --replay <this file>'})
             for r in rows:
                 d = row_diff(r, by_label[r['label']])
                 if d:
-                    ctx.violation('SourceCatalog.row-order:' + c['how'], f'row of a reordered catalog differs in {d}',
+                    ctx.violation('SourceCatalog.row-order:' + c['ops'][-1][0], f'row of a reordered catalog differs in {d}',
                                   {'case': describe(c), 'label': r['label'], 'fields': d})
         if i % 2 == 0:
             lab = rng.choice(sorted(by_label))
@@ -760,9 +920,10 @@ def run(ctx):
                               {'case': describe(c), 'changed': describe(c2), 'label': lab, 'fields': d})
         else:
             c3, mp = relabel(rng, c)
-            rows3 = {r['label']: r for r in run_impl(c3)[2]}
+            r3 = run_impl(c3)[2]
+            rows3 = {r['label']: r for r in r3}
             ctx.stat('metamorphic', 'relabel')
-            srt = [r['label'] for r in run_impl(c3)[2]]
+            srt = [r['label'] for r in r3]
             if srt != sorted(srt):
                 ctx.violation('SourceCatalog.row-order:labels-not-sorted', 'rows do not follow label order',
                               {'case': describe(c3)})
@@ -820,7 +981,14 @@ def replay(obj):
     except ImplTimeout:
         print('the catalog properties did not return within 30 s: property FAILS on this input')
         return 1
+    except ReorderError as e:
+        print(str(e), ': property FAILS on this input')
+        return 1
     rc = 0
+    got = [row['label'] for row in rows]
+    if case.get('ops') and got != case['_want_labels']:
+        print('rows carry labels', got, 'but', case['_want_labels'], 'were requested through', case['ops'])
+        rc = 1
     for row in rows:
         bad, sp = oracle_row(case, row)
         print('label', row['label'], 'impl:', {k: row[k] for k in ('segment_flux', 'area', 'centroid', 'covariance')},
